@@ -134,9 +134,7 @@ func (verifDM) Unmarshal(data []byte, v interface{}) error {
 		}
 		switch p := v.(type) {
 		case *p1Claims:
-			keep := p.CanonicalProfile
-			*p = p1Claims(*g.c)
-			p.CanonicalProfile = keep
+			verifFillP1(p, g.c)
 			return nil
 		case *p2Claims:
 			return verifErrStub
@@ -150,17 +148,13 @@ func (verifDM) Unmarshal(data []byte, v interface{}) error {
 		if verifStub.p1 == nil || ndBool("dm.err.claims") {
 			return verifErrStub
 		}
-		keep := p.CanonicalProfile
-		*p = p1Claims(*verifStub.p1.c)
-		p.CanonicalProfile = keep
+		verifFillP1(p, verifStub.p1.c)
 		return nil
 	case *p2Claims:
 		if verifStub.p2 == nil || ndBool("dm.err.claims") {
 			return verifErrStub
 		}
-		keep := p.CanonicalProfile
-		*p = p2Claims(*verifStub.p2.c)
-		p.CanonicalProfile = keep
+		verifFillP2(p, verifStub.p2.c)
 		return nil
 	}
 	// the anonymous selector struct { Profile string `cbor:"265,keyasint"` }
@@ -179,6 +173,51 @@ func (verifDM) Valid(data []byte) error                                  { retur
 func (verifDM) Wellformed(data []byte) error                             { return nil }
 func (verifDM) NewDecoder(r io.Reader) *cbor.Decoder                     { return nil }
 func (verifDM) DecOptions() cbor.DecOptions                              { return cbor.DecOptions{} }
+
+// verifFillP1 / verifFillP2: what a struct decoder does with a map: a key that is present sets
+// its field, an absent key leaves the destination field untouched.
+// (verifPick keeps the branch inside a tiny function: the engine merges paths at function
+// return, so filling eleven fields costs eleven merges instead of 2^11 paths)
+func verifPick[T any](src, dst *T) *T {
+	if src != nil {
+		return src
+	}
+	return dst
+}
+
+func verifPickSw(src, dst ISwComponents) ISwComponents {
+	if src != nil {
+		return src
+	}
+	return dst
+}
+
+func verifFillP1(p *p1Claims, src *P1Claims) {
+	p.Profile = verifPick(src.Profile, p.Profile)
+	p.ClientID = verifPick(src.ClientID, p.ClientID)
+	p.SecurityLifeCycle = verifPick(src.SecurityLifeCycle, p.SecurityLifeCycle)
+	p.ImplID = verifPick(src.ImplID, p.ImplID)
+	p.BootSeed = verifPick(src.BootSeed, p.BootSeed)
+	p.CertificationReference = verifPick(src.CertificationReference, p.CertificationReference)
+	p.SwComponents = verifPickSw(src.SwComponents, p.SwComponents)
+	p.NoSwMeasurements = verifPick(src.NoSwMeasurements, p.NoSwMeasurements)
+	p.Nonce = verifPick(src.Nonce, p.Nonce)
+	p.InstID = verifPick(src.InstID, p.InstID)
+	p.VSI = verifPick(src.VSI, p.VSI)
+}
+
+func verifFillP2(p *p2Claims, src *P2Claims) {
+	p.Profile = verifPick(src.Profile, p.Profile)
+	p.ClientID = verifPick(src.ClientID, p.ClientID)
+	p.SecurityLifeCycle = verifPick(src.SecurityLifeCycle, p.SecurityLifeCycle)
+	p.ImplID = verifPick(src.ImplID, p.ImplID)
+	p.BootSeed = verifPick(src.BootSeed, p.BootSeed)
+	p.CertificationReference = verifPick(src.CertificationReference, p.CertificationReference)
+	p.SwComponents = verifPickSw(src.SwComponents, p.SwComponents)
+	p.Nonce = verifPick(src.Nonce, p.Nonce)
+	p.InstID = verifPick(src.InstID, p.InstID)
+	p.VSI = verifPick(src.VSI, p.VSI)
+}
 
 // verifJSONMarshal is what the engine runs for encoding/json.Marshal.
 func verifJSONMarshal(v interface{}) ([]byte, error) {
@@ -213,17 +252,13 @@ func verifJSONUnmarshal(data []byte, v interface{}) error {
 		if verifStub.p1 == nil || ndBool("json.err.claims") {
 			return verifErrStub
 		}
-		keep := p.CanonicalProfile
-		*p = p1Claims(*verifStub.p1.c)
-		p.CanonicalProfile = keep
+		verifFillP1(p, verifStub.p1.c)
 		return nil
 	case *p2Claims:
 		if verifStub.p2 == nil || ndBool("json.err.claims") {
 			return verifErrStub
 		}
-		keep := p.CanonicalProfile
-		*p = p2Claims(*verifStub.p2.c)
-		p.CanonicalProfile = keep
+		verifFillP2(p, verifStub.p2.c)
 		return nil
 	}
 	return verifErrStub
